@@ -314,6 +314,13 @@ def run_scripted(case):
                     break
         except Exception as exc:  # noqa: BLE001
             res.violate("solution-load-frame", exc=type(exc).__name__, detail={"msg": str(exc)[:200]})
+        # the caller goes on using its options object for the next run (other save interval, other times): the solution it holds
+        # still reports the frame times of the run it came from
+        opts.save_every, opts.solve_time, opts.skip_time, opts.dt_init = k + 1, 3.0 * T + 1.0, 0.0, 2.0 * DT0
+        st = sol.times
+        if st is None or len(st) != len(ft) or np.max(np.abs(np.asarray(st, float) - ft)) > 1e-9 * DT0:
+            res.violate("solution-times", same_length=bool(st is not None and len(st) == len(ft)), after_the_callers_options_object_was_edited=True,
+                        detail={"frame_times": ft, "solution_times": st, "case": case})
     return res
 
 
